@@ -269,10 +269,12 @@ func main() {
 	facts := Facts{Consts: map[string]string{}, Funcs: map[string]FuncFact{}, Mgr: map[string][]string{}}
 	var dialLean string
 	var pollLean string
+	var fdOnce string
 	for _, p := range pkgs {
 		if p.Name == "netpoll" {
 			dialLean = dialFacts(p)
 			pollLean = pollFacts(p)
+			fdOnce = fdOnceLean(p)
 		}
 		if len(p.Errors) > 0 {
 			for _, e := range p.Errors {
@@ -515,7 +517,7 @@ func main() {
 			}
 			fmt.Fprintf(&f, "\n  (%s, %s, %s, %s)", fdLeanStr(c.File), fdLeanStr(c.Func), fdLeanStr(c.Kind), fdLeanStr(c.Call))
 		}
-		f.WriteString("]\n\nend Netpoll.Gen\n")
+		f.WriteString("]\n\n" + fdOnce + "end Netpoll.Gen\n")
 		if err := os.WriteFile(filepath.Join(*out, "Fd.lean"), []byte(f.String()), 0o644); err != nil {
 			fmt.Fprintln(os.Stderr, err)
 			os.Exit(2)
